@@ -325,6 +325,12 @@ func decJob(e encoded, want []byte, class string, chunking string, alt int, lean
 					wimpl = fmt.Sprintf("ok %s used=%d", outOf(got.Bytes()), len(e.data)-len(rest))
 				}
 				cr.ops = append(cr.ops, opLine{"wdec deflate " + hlib.Hex(e.data), wimpl})
+				// evidence for the open proof obligation `DynRefines`: at every dynamic block of this (valid) stream the
+				// mirror's header parser + init_huff must give tables that agree with the specification's codes
+				if status == "ok" && len(e.data) <= 70000 {
+					cr.ops = append(cr.ops, opLine{"wdyn deflate " + hlib.Hex(e.data), "ok"})
+					cr.counts = append(cr.counts, "wdyn-streams")
+				}
 			case "zlib":
 				cr.ops = append(cr.ops, opLine{"dec zlib " + hlib.Hex(e.dict) + " " + hlib.Hex(e.data), impl})
 			case "gzip":
